@@ -9,7 +9,7 @@
    the tag name "emph" as "em" (the `external` flag of hyperlinks is NOT erased any more:
    defect F10 is fixed by 8ee055e). *)
 From Pybtex Require Import Base.Prelude Base.PyChar Base.PyStr Model.RtTypes Model.RichText Model.Backends
-  Spec.Flat Spec.FlatOps Proofs.RichText Proofs.RichSlice Proofs.RichOps Proofs.RichEq Proofs.RichWf Proofs.RichObs Proofs.RichSplit Proofs.RichInj Proofs.RichNormal Proofs.RichHist Proofs.RichHist2 Proofs.RichRender.
+  Spec.Flat Spec.FlatOps Proofs.RichText Proofs.RichSlice Proofs.RichOps Proofs.RichEq Proofs.RichWf Proofs.RichObs Proofs.RichSplit Proofs.RichInj Proofs.RichNormal Proofs.RichHist Proofs.RichHist2 Proofs.RichRender Proofs.RichChain.
 
 (* len(text) is the number of (character, markup) pairs of the rendering *)
 Theorem len_flat : forall t, rlen t = length (flat t).
@@ -130,10 +130,10 @@ Print Assumptions markup_preserved_by_every_op.
    Partial only in what `spec` leaves out: an int index outside the bounds (str raises, multipart
    texts do not: F23), split (cut positions at part boundaries: F17s; its content laws are the
    split_* theorems, which hold for every value) and abbreviate (not in the property text). *)
-Theorem ops_compose_partial : forall e r, spec e = Some r ->
+Theorem ops_compose_total : forall e r, spec e = Some r ->
   exists v, eval_c e = Ok v /\ good v /\ top_markup v = fst r /\ flat v = snd r.
 Proof. exact ops_compose_x. Qed.
-Print Assumptions ops_compose_partial.
+Print Assumptions ops_compose_total.
 
 Theorem ops_compose_observers : forall e r, spec e = Some r -> exists v, eval_c e = Ok v /\
   rlen v = length (snd r) /\ rstr v = flat_str (snd r) /\ risalpha v = isalpha_flat (snd r).
@@ -176,11 +176,28 @@ Theorem split_ws_spec_string : forall s, split_c (RStr s) SepNone None = Ok (map
 Proof. exact string_split_ws_lem. Qed.
 Print Assumptions split_ws_spec_string.
 
-Theorem split_ws_spec_partial : forall t s, is_multipart t = true -> (forall ps, t <> RProt ps) ->
-  parts_of t = [RStr s] ->
-  split_c t SepNone None = Ok (map (fun w => build (kind_of t) [RStr w]) (split_ws s)).
-Proof. exact one_part_split_ws_lem. Qed.
+(* ... and for a one-String text under any nesting of Tag / HRef, with or without a Text on top
+   (`chain_s`, Spec/FlatOps.v): every word is rebuilt inside the same nest of markup (`rechain`).
+   Still `_partial`: multi-part texts whose whitespace runs lie inside single parts are not covered. *)
+Theorem split_ws_spec_partial : forall t s, chain_s t s ->
+  split_c t SepNone None = Ok (map (rechain t) (split_ws s)).
+Proof. exact chain_split_ws_lem. Qed.
 Print Assumptions split_ws_spec_partial.
+
+(* split(delimiter_re) on the same texts: exactly re.split(r'([\s\-])', s), delimiters and empty
+   strings included, each piece inside the same nest *)
+Theorem split_delim_spec_onestring : forall t s, chain_s t s ->
+  split_c t SepDelim None = Ok (map (rechain t) (re_split_delim s [])).
+Proof. exact chain_split_delim_lem. Qed.
+Print Assumptions split_delim_spec_onestring.
+
+(* add_period on any text in normal form (any nesting of Tag / HRef / Protected): a period is
+   appended, at the markup level of the text itself, iff the text is non-empty and its last pair is
+   not one of . ? ! *)
+Theorem add_period_flat_thm : forall t p, good t -> exists v, add_period t p = Ok v /\ good v /\
+  top_markup v = top_markup t /\ flat v = add_period_flat (top_markup t) (flat t) p.
+Proof. exact add_period_flat_lem. Qed.
+Print Assumptions add_period_flat_thm.
 
 (* isalpha on a constructed text is str.isalpha on its characters *)
 Theorem isalpha_flat_thm : forall t, good t -> risalpha t = isalpha_flat (flat t).
@@ -245,6 +262,24 @@ Print Assumptions endswith_sound.
 Theorem endswith_flat_refuted : exists t p, suffix_of (map ACh p) (atoms (flat t)) /\ rendswith t [p] = false.
 Proof. exact endswith_complete_refuted. Qed.
 Print Assumptions endswith_flat_refuted.
+
+(* the full statements on the one-part domain: for one String under any nesting of Text / Tag /
+   HRef / Protected (`chain`), `in`, startswith and endswith are exactly the str operations on the
+   characters of the rendering *)
+Theorem contains_flat_onestring : forall t s p, FlatOps.chain t s ->
+  (rcontains t p = true <-> occurs (map ACh p) (atoms (flat t))).
+Proof. exact contains_chain_lem. Qed.
+Print Assumptions contains_flat_onestring.
+
+Theorem startswith_flat_onestring : forall t s ps, FlatOps.chain t s ->
+  (rstartswith t ps = true <-> exists p, In p ps /\ prefix_of (map ACh p) (atoms (flat t))).
+Proof. exact startswith_chain_lem. Qed.
+Print Assumptions startswith_flat_onestring.
+
+Theorem endswith_flat_onestring : forall t s ps, FlatOps.chain t s ->
+  (rendswith t ps = true <-> exists p, In p ps /\ suffix_of (map ACh p) (atoms (flat t))).
+Proof. exact endswith_chain_lem. Qed.
+Print Assumptions endswith_flat_onestring.
 
 (* split: the pieces re-assemble -- for the delimiter regex (whose delimiters are pieces) they
    concatenate to the text; for split() nothing but unprotected whitespace disappears (order,
@@ -340,10 +375,10 @@ Theorem flat_injective : forall a b, normal a = true -> normal b = true -> typei
 Proof. exact flat_injective_lem. Qed.
 Print Assumptions flat_injective.
 
-Theorem eq_complete_partial : forall a b, normal a = true -> normal b = true -> typeinfo a = typeinfo b ->
+Theorem eq_complete_normal : forall a b, normal a = true -> normal b = true -> typeinfo a = typeinfo b ->
   flat a = flat b -> rt_eqb a b = true.
 Proof. intros a b Na Nb T E. rewrite (flat_injective_lem a b Na Nb T E). exact (rt_eqb_refl b). Qed.
-Print Assumptions eq_complete_partial.
+Print Assumptions eq_complete_normal.
 
 (* grouping while building: an empty part, and wrapping some of the parts into a nested Text,
    change nothing in the object that is built -- hence neither == nor the rendering *)
@@ -419,6 +454,12 @@ Example grouping_example :
   Forall good [RTag (s2l "em") [RStr (s2l "a")]; RText [RTag (s2l "em") [RStr (s2l "b")]; RStr (s2l "c")]]
   /\ Forall good [RTag (s2l "em") [RStr (s2l "ab")]; RStr (s2l "c")].
 Proof. split; repeat constructor. Qed.
+Example chain_example :
+  chain_s (RText [RTag (s2l "em") [RHRef (s2l "u") true [RStr (s2l "a b")]]]) (s2l "a b")
+  /\ FlatOps.chain (RProt [RTag (s2l "em") [RStr (s2l "a b")]]) (s2l "a b")
+  /\ split_c (RText [RTag (s2l "em") [RHRef (s2l "u") true [RStr (s2l "a b")]]]) SepNone None
+     = Ok [RText [RTag (s2l "em") [RHRef (s2l "u") true [RStr (s2l "a")]]]; RText [RTag (s2l "em") [RHRef (s2l "u") true [RStr (s2l "b")]]]].
+Proof. split; [apply cs_text; repeat constructor|split; [repeat constructor|vm_compute; reflexivity]]. Qed.
 Example split_spec_example :
   split_c (RTag (s2l "em") [RStr (s2l " a  b c ")]) SepNone None
   = Ok [RTag (s2l "em") [RStr (s2l "a")]; RTag (s2l "em") [RStr (s2l "b")]; RTag (s2l "em") [RStr (s2l "c")]].
